@@ -254,6 +254,7 @@ class Inliner:
         P = self.P
         total = 0
         self._find_renamed()
+        total += self._object_pass()
         for _ in range(MAX_ROUNDS):
             new = {fi.fq: fi for fi in P.funcs.values() if self.is_new(fi)}
             if not new:
@@ -277,6 +278,229 @@ class Inliner:
             self._drop_unused()
             P._reindex()
         return total
+
+    # ---- a small new class used as a local object: its state becomes locals of the user, its methods are read at the calls
+    def _object_pass(self) -> int:
+        """`framer = NewlineFramer(); … framer.feed(chunk) …` with NewlineFramer a class the reference decomposition does not
+        know: if the object never leaves the function (only `v.method(…)` calls and `v.attr` reads), its constructor and
+        methods are read at their call sites and every `v.attr` becomes the local `v__attr`.  Done on a copy of the
+        function; kept only if nothing of the object is left afterwards."""
+        P = self.P
+        n = 0
+        for caller in list(P.funcs.values()):
+            try:
+                n += self._scalarise_local_objects(caller)
+            except NotInlinable:
+                pass
+        if n:
+            P._reindex()
+        return n
+
+    def _new_class(self, module, name):
+        kind, obj = self.P.resolve_name(module.name, name)
+        if kind != "class":
+            return None
+        if f"{obj.module.name}:{obj.name}" in self.snap.get("classes", set()) or obj.name in {c.split(":")[-1] for c in self.snap.get("classes", set())}:
+            return None
+        if any(ast.unparse(b) != "object" for b in obj.node.bases) or obj.node.keywords:
+            return None
+        if any(isinstance(x, (ast.Assign, ast.AnnAssign)) and not (isinstance(x, ast.Assign) and all(isinstance(t, ast.Name) and t.id == "__slots__" for t in x.targets)) and not (isinstance(x, ast.AnnAssign) and x.value is None) for x in obj.node.body):
+            return None  # class-level state
+        return obj
+
+    def _scalarise_local_objects(self, caller) -> int:
+        from .model import FuncInfo
+
+        fn = caller.node
+        cands = {}
+        for x in _own(fn):
+            tgt = val = None
+            if isinstance(x, ast.Assign) and len(x.targets) == 1 and isinstance(x.targets[0], ast.Name):
+                tgt, val = x.targets[0].id, x.value
+            elif isinstance(x, ast.AnnAssign) and isinstance(x.target, ast.Name) and x.value is not None:
+                tgt, val = x.target.id, x.value
+            if tgt and isinstance(val, ast.Call) and isinstance(val.func, ast.Name):
+                ci = self._new_class(caller.module, val.func.id)
+                if ci is not None:
+                    cands.setdefault(tgt, []).append((x, ci))
+        done = 0
+        for v, defs in cands.items():
+            if len(defs) != 1:
+                continue
+            stmt, ci = defs[0]
+            # every binding of the name is this one; parameters and loop targets of the same name disqualify
+            if sum(1 for x in _own(fn) if isinstance(x, ast.Name) and x.id == v and isinstance(x.ctx, ast.Store)) != 1 or v in {a.arg for a in fn.args.args + fn.args.kwonlyargs}:
+                continue
+            methods = {f.name: f for f in self.P.funcs.values() if f.cls is ci and f.parent is None}
+            props = {m: f for m, f in methods.items() if any(ast.unparse(d) == "property" for d in f.node.decorator_list)}
+            work = copy.deepcopy(fn)
+            # the copy's own constructor statement
+            wstmt = None
+            for x in _own(work):
+                if isinstance(x, (ast.Assign, ast.AnnAssign)) and ast.unparse(x) == ast.unparse(stmt):
+                    wstmt = x
+            if wstmt is None:
+                continue
+            self._local_obj = (v, ci, methods)
+            try:
+                ok = self._inline_object_uses(caller, work, wstmt, v, ci, methods, props)
+            finally:
+                self._local_obj = None
+            if not ok:
+                continue
+            fn.body = work.body
+            ast.fix_missing_locations(fn)
+            self.inlined.append(f"{ci.module.name}:{ci.name} (local object `{v}`) into {caller.fq}")
+            done += 1
+        return done
+
+    def _inline_object_uses(self, caller, work, wstmt, v, ci, methods, props) -> bool:
+        from .model import FuncInfo
+
+        # 1. the constructor: `v = C(args)` → the body of __init__ with self := v
+        init = methods.get("__init__")
+        call = wstmt.value
+        holder_field = None
+        for holder, field in self._stmt_lists(work):
+            if wstmt in getattr(holder, field):
+                holder_field = (holder, field)
+        if holder_field is None:
+            return False
+        holder, field = holder_field
+        stmts = getattr(holder, field)
+        i = stmts.index(wstmt)
+        if init is None:
+            if call.args or call.keywords:
+                return False
+            stmts[i:i + 1] = [ast.copy_location(ast.Pass(), wstmt)]
+        else:
+            if self.inlinable_def_init(init) is not None:
+                return False
+            fake = ast.Expr(value=ast.Call(func=ast.Attribute(value=ast.Name(id=v, ctx=ast.Load()), attr="__init__", ctx=ast.Load()), args=call.args, keywords=call.keywords))
+            ast.copy_location(fake, wstmt)
+            ast.fix_missing_locations(fake)
+            rep = self._expand(caller, fake, "expr", fake.value, init, False)
+            stmts[i:i + 1] = rep
+        # 2. method calls, to a fixpoint
+        for _round in range(12):
+            changed = False
+            for holder, field in self._stmt_lists(work):
+                stmts = getattr(holder, field)
+                i = 0
+                while i < len(stmts):
+                    st = stmts[i]
+                    rep = self._try_object_statement(caller, st, v, methods, props)
+                    if rep is not None:
+                        stmts[i:i + 1] = rep
+                        changed = True
+                        i += len(rep)
+                    else:
+                        i += 1
+            if not changed:
+                break
+        # 3. single-return properties read as attributes
+        class PR(ast.NodeTransformer):
+            def visit_Attribute(self_, node):
+                self_.generic_visit(node)
+                if isinstance(node.value, ast.Name) and node.value.id == v and node.attr in props and isinstance(node.ctx, ast.Load):
+                    body = [x for x in props[node.attr].node.body if not (isinstance(x, ast.Expr) and isinstance(x.value, ast.Constant))]
+                    if len(body) == 1 and isinstance(body[0], ast.Return) and body[0].value is not None:
+                        me = props[node.attr].node.args.args[0].arg
+                        return ast.copy_location(_Renamer({}, {me: ast.Name(id=v, ctx=ast.Load())}).visit(copy.deepcopy(body[0].value)), node)
+                return node
+
+        work.body = [PR().visit(x) for x in work.body]
+        # 4. nothing of the object may be left but `v.attr`
+        parents = {}
+        for x in ast.walk(work):
+            for c in ast.iter_child_nodes(x):
+                parents[id(c)] = x
+        for x in ast.walk(work):
+            if isinstance(x, ast.Name) and x.id == v:
+                par = parents.get(id(x))
+                if not (isinstance(par, ast.Attribute) and par.value is x):
+                    return False
+                gp = parents.get(id(par))
+                if isinstance(gp, ast.Call) and gp.func is par:
+                    return False  # a method call that could not be read at its site
+        # 5. `v.attr` → `v__attr`
+        class SC(ast.NodeTransformer):
+            def visit_Attribute(self_, node):
+                self_.generic_visit(node)
+                if isinstance(node.value, ast.Name) and node.value.id == v:
+                    return ast.copy_location(ast.Name(id=f"{v}__{node.attr.lstrip('_')}", ctx=node.ctx), node)
+                return node
+
+        work.body = [SC().visit(x) for x in work.body]
+
+        # `self.a: T = e` of the constructor became an annotated assignment to a plain name: write it as the assignment it is
+        class AA(ast.NodeTransformer):
+            def visit_AnnAssign(self_, node):
+                if isinstance(node.target, ast.Name) and node.target.id.startswith(f"{v}__") and node.value is not None:
+                    return ast.copy_location(ast.Assign(targets=[node.target], value=node.value, type_comment=None), node)
+                return node
+
+        work.body = [AA().visit(x) for x in work.body]
+        return True
+
+    def inlinable_def_init(self, fi) -> Optional[str]:
+        why = self.inlinable_def(fi)
+        if why is not None:
+            return why
+        if any(isinstance(x, ast.Return) and x.value is not None for x in _own(fi.node)):
+            return "__init__ returns a value"
+        return None
+
+    def _try_object_statement(self, caller, s, v, methods, props) -> Optional[List[ast.stmt]]:
+        """One statement whose value/test/iterable is `v.m(…)` (possibly awaited): the method read at the call."""
+        def is_obj_call(e):
+            c, aw = self._call_of(e)
+            if c is not None and isinstance(c.func, ast.Attribute) and isinstance(c.func.value, ast.Name) and c.func.value.id == v and c.func.attr in methods and c.func.attr not in props:
+                return c, aw
+            return None, False
+
+        kind = None
+        call = awaited = None
+        negate = False
+        if isinstance(s, ast.Assign) and len(s.targets) == 1:
+            call, awaited = is_obj_call(s.value)
+            kind = "assign"
+        elif isinstance(s, ast.AnnAssign) and s.value is not None and isinstance(s.target, ast.Name):
+            call, awaited = is_obj_call(s.value)
+            kind = "assign"
+        elif isinstance(s, ast.Expr):
+            call, awaited = is_obj_call(s.value)
+            kind = "expr"
+        elif isinstance(s, ast.Return) and s.value is not None:
+            call, awaited = is_obj_call(s.value)
+            kind = "return"
+        elif isinstance(s, ast.If):
+            t = s.test
+            if isinstance(t, ast.UnaryOp) and isinstance(t.op, ast.Not):
+                negate, t = True, t.operand
+            call, awaited = is_obj_call(t)
+            kind = "test"
+        elif isinstance(s, (ast.For, ast.AsyncFor)):
+            c, aw = is_obj_call(s.iter)
+            if c is not None:
+                # the iterable is evaluated once, before the loop: bind it first
+                self.counter += 1
+                tmp = f"items_i{self.counter}"
+                pre = ast.Assign(targets=[ast.Name(id=tmp, ctx=ast.Store())], value=s.iter, type_comment=None)
+                ast.copy_location(pre, s)
+                s2 = copy.copy(s)
+                s2.iter = ast.copy_location(ast.Name(id=tmp, ctx=ast.Load()), s.iter)
+                ast.fix_missing_locations(pre)
+                return [pre, s2]
+        if call is None:
+            return None
+        g = methods[call.func.attr]
+        if self.inlinable_def(g) is not None or awaited != isinstance(g.node, ast.AsyncFunctionDef):
+            return None
+        try:
+            return self._expand(caller, s, kind, call, g, negate)
+        except NotInlinable:
+            return None
 
     # ---- helpers that are one expression: `def h(a, b): return <expr>` used anywhere in an expression
     def _expression_pass(self) -> int:
